@@ -1,6 +1,7 @@
 import RvModel.Wire
 import RvModel.Gen.Dispatch
 import RvModel.Spec.C01A
+import RvModel.Spec.C13
 /- hand-written dispatch entries: Spec oracles and hand models (grows per property) -/
 namespace HandDispatch
 open GenDispatch Wire
@@ -25,4 +26,10 @@ def tableC01A : List (String × Rd String) := [
   ("spec.Gaussian.ln_f_real", dx rd_Gaussian Spec.Gaussian.lnPdf)
 ]
 
+def tableC13 : List (String × Rd String) := [
+  ("spec.logsumexp", do let _ ← Wire.next; let xs ← rdL rdF; pure (wrF (Spec.logsumexp xs))),
+  ("spec.logaddexp", do let _ ← Wire.next; let x ← rdF; let y ← rdF; pure (wrF (Spec.logaddexp x y))),
+  ("spec.log1pexp", do let _ ← Wire.next; let x ← rdF; pure (wrF (Spec.log1pexp x))),
+  ("spec.cumsum", do let _ ← Wire.next; let xs ← rdL rdF; pure (wrL wrF (Spec.cumsum xs)))
+]
 end HandDispatch
